@@ -9,6 +9,7 @@ import Aldy.Driver.C12
 import Aldy.Driver.C06
 import Aldy.Driver.C07
 import Aldy.Driver.C08
+import Aldy.Driver.C09
 
 /-! Line-protocol driver: one JSON object per input line (`{"op": ..., ...}`), one JSON
 object per output line.  Errors are reported as `{"error": msg}`; the driver never guesses. -/
@@ -38,6 +39,7 @@ def dispatch (j : Json) : Except String Json := do
   | "pileup" => opPileup j
   | "normalize" => opNormalize j
   | "coords" => opCoords j
+  | "catalogue" => opCatalogue j
   | "ping" => pure (objJ [("pong", boolJ true)])
   | _ => .error s!"unknown op {op}"
 
